@@ -418,7 +418,7 @@ func (sw *arSweep) withArg(to types.Address, method string, m abi.Method, idx []
 	if set == 0 {
 		return nil
 	}
-	if to == types.BridgeContract { // a signature over the arguments is made again for the changed arguments
+	if to == types.BridgeContract && sw.w.r.c.Args["noreprove"] == "" { // a signature over the arguments is made again for the changed arguments
 		sw.w.reprove(to, method, spec, nil)
 	}
 	return spec
@@ -441,6 +441,11 @@ func (w *arWorld) runIntSweep(part, parts int) {
 	}
 	top := arSortUniq(append(arAround(arAround(arAround(arAround(nil, bigPow2(63)), bigPow2(64)), bigPow2(128)), bigPow2(254)),
 		arAround(arAround(nil, bigPow2(255)), constants.TokenMaxSupplyBig)...))
+	for _, b := range []uint{32, 63, 64} { // whole coins whose number wraps to 1 when it is narrowed
+		q := new(big.Int).Add(bigPow2(b), big.NewInt(1))
+		top = append(top, q.Mul(q, big.NewInt(constants.Decimals)))
+	}
+	top = arSortUniq(top)
 	mi := -1
 	for _, ca := range allContractABIs {
 		for _, method := range arMethodOrder(ca.abi) {
@@ -571,6 +576,9 @@ func (w *arWorld) runIntSweep(part, parts int) {
 				limit := new(big.Int).Div(bal, big.NewInt(40))
 				fam := append([]*big.Int{}, sw.base...)
 				fam = append(fam, sw.stateFamily(ca.addr, probe)...)
+				if probe.amount != nil && probe.amount.Sign() > 0 { // a method that takes an amount: whole multiples of the units, as above
+					fam = append(fam, arAlignedFamily(probe.amount, c.Tier == "thorough")...)
+				}
 				for _, v := range arSortUniq(fam) {
 					if v.Sign() < 0 {
 						continue
